@@ -36,7 +36,9 @@ class Color(str, enum.Enum):
     RED = 'red'
 
 
-SCALARS = [0, 1, 2, -1, 'a', 'b', '', None, 1.5, b'x', True, 'key', StrSub('tag'), BytesSub(b'bt'), Color.RED, StrSub('')]
+SCALARS = [0, 1, 2, -1, 'a', 'b', '', None, 1.5, b'x', True, 'key', StrSub('tag'), BytesSub(b'bt'), Color.RED, StrSub(''),
+           # keys that look like dotted paths
+           'v1.2', 'a.b', '.', '0']
 
 
 def _call(f, *a, **kw):
@@ -77,7 +79,7 @@ def _big_instr():
     return st.tuples(st.sampled_from(['biglist', 'bigdict', 'bigset', 'manylists', 'manylists']), st.integers(0, len(BIG) - 1), _ref).map(list)
 
 
-_ACTIONS = ['keep', 'keep', 'keep', 'drop', 'same', 'rekey', 'revalue', 'wrap']
+_ACTIONS = ['keep', 'keep', 'keep', 'drop', 'same', 'rekey', 'revalue', 'wrap', 'retype']
 
 
 def strat(tier):
@@ -92,7 +94,7 @@ def strat(tier):
         'prior': st.sampled_from([None, None, None, 'unhashable_key', 'visit_raises', 'unhashable_member', 'enter_raises']),
         'visit': st.one_of(st.none(), st.none(),
                            st.lists(st.sampled_from(_ACTIONS), min_size=30, max_size=30),
-                           st.lists(st.sampled_from(['keep', 'keep', 'keep', 'keep', 'drop', 'revalue']), min_size=30, max_size=30)),
+                           st.lists(st.sampled_from(['keep', 'keep', 'keep', 'keep', 'drop', 'revalue', 'retype']), min_size=30, max_size=30)),
     })
 
 
@@ -200,6 +202,15 @@ def make_visit(table, log):
             if isinstance(value, (list, tuple, dict, set, frozenset)):
                 return key, len(value)
             return key, ('V', value)
+        if act == 'retype':
+            # replace a number by an EQUAL value of another type (1 -> 1.0, True -> 1, 2.0 -> 2): the output must hold the new one
+            if type(value) is bool:
+                return key, int(value)
+            if type(value) is int:
+                return key, float(value)
+            if type(value) is float and value == int(value):
+                return key, int(value)
+            return key, value
         if act == 'wrap':
             return key, (value,)
         raise HarnessError('action %r' % (act,))
